@@ -37,7 +37,7 @@ theorem step_receive {g : Graph Tid} {n : Nat} {s s' : State Tid} {t : Tid}
     (h : step g n s (.receive t) = some s') :
     t ∈ g.tasks ∧ s.phase t = .done ∧
     s' = (if s.aborted then
-            { s with phase := fun x => if x = t then .completed else s.phase x, clock := s.clock + 1 }
+            release g { s with phase := fun x => if x = t then .completed else s.phase x, clock := s.clock + 1 }
           else dispatch g { s with phase := fun x => if x = t then .completed else s.phase x,
                                    clock := s.clock + 1 } n) := by
   simp only [step] at h
@@ -48,11 +48,7 @@ theorem step_receive {g : Graph Tid} {n : Nat} {s s' : State Tid} {t : Tid}
 theorem step_interrupt {g : Graph Tid} {n : Nat} {s s' : State Tid}
     (h : step g n s .interrupt = some s') :
     s.aborted = false ∧
-    s' = { s with
-        aborted := true
-        forced := fun x => if s.phase x = .remaining then true else s.forced x
-        phase := fun x => if s.phase x = .remaining then .queued else s.phase x
-        clock := s.clock + 1 } := by
+    s' = release g { s with aborted := true, clock := s.clock + 1 } := by
   simp only [step] at h
   split at h
   · rename_i hc; injection h with h; exact ⟨hc, h.symm⟩
@@ -104,15 +100,45 @@ theorem dispatch_of_ne_remaining (g : Graph Tid) (s : State Tid) (n : Nat) (t : 
 @[simp] theorem dispatch_finishAt (g : Graph Tid) (s : State Tid) (n : Nat) : (dispatch g s n).finishAt = s.finishAt := rfl
 @[simp] theorem dispatch_starts (g : Graph Tid) (s : State Tid) (n : Nat) : (dispatch g s n).starts = s.starts := rfl
 
+/-! ### `release` (one round of the repaired `skip_all_tasks`): an unbounded `dispatch` that also marks `forced` -/
+
+theorem release_eq (g : Graph Tid) (s : State Tid) :
+    release g s = { dispatch g s g.tasks.length with
+                    forced := fun t => if t ∈ popped g s g.tasks.length then true else s.forced t } := rfl
+
+theorem release_phase (g : Graph Tid) (s : State Tid) : (release g s).phase = (dispatch g s g.tasks.length).phase := rfl
+@[simp] theorem release_result (g : Graph Tid) (s : State Tid) : (release g s).result = s.result := rfl
+@[simp] theorem release_mode (g : Graph Tid) (s : State Tid) : (release g s).mode = s.mode := rfl
+@[simp] theorem release_aborted (g : Graph Tid) (s : State Tid) : (release g s).aborted = s.aborted := rfl
+@[simp] theorem release_clock (g : Graph Tid) (s : State Tid) : (release g s).clock = s.clock := rfl
+@[simp] theorem release_startAt (g : Graph Tid) (s : State Tid) : (release g s).startAt = s.startAt := rfl
+@[simp] theorem release_finishAt (g : Graph Tid) (s : State Tid) : (release g s).finishAt = s.finishAt := rfl
+@[simp] theorem release_starts (g : Graph Tid) (s : State Tid) : (release g s).starts = s.starts := rfl
+
+/-- a task is marked `forced` by `release` exactly when `release` queues it -/
+theorem release_forced_cases (g : Graph Tid) (s : State Tid) (t : Tid) :
+    ((release g s).forced t = s.forced t ∧ (release g s).phase t = s.phase t) ∨
+    (t ∈ g.tasks ∧ s.phase t = .remaining ∧ (release g s).phase t = .queued ∧ (release g s).forced t = true ∧
+      ∀ d ∈ g.deps t, s.phase d = .completed) := by
+  by_cases h : t ∈ popped g s g.tasks.length
+  · right
+    have hr := popped_runnable h
+    unfold runnable at hr
+    simp only [Bool.and_eq_true, decide_eq_true_eq, List.all_eq_true] at hr
+    refine ⟨popped_sub_tasks h, hr.1, by simp [release, h], by simp [release, h], hr.2⟩
+  · left; simp [release, h]
+
 /-! ### The invariant -/
 
-/-- Everything the property theorems need, in one invariant of reachable states. -/
+/-- Everything the property theorems need, in one invariant of reachable states.  The ordering facts
+    (`deps`, `order`) hold for EVERY task, whether it was released by the normal loop or, after a keyboard
+    interrupt, by `skip_all_tasks`: there is no exception for interrupted runs. -/
 structure Inv (g : Graph Tid) (s : State Tid) : Prop where
-  /-- a task that left `remaining` through the normal path has all its dependencies completed -/
-  deps     : ∀ t, s.phase t ≠ .remaining → s.forced t = false → ∀ d ∈ g.deps t, s.phase d = .completed
-  /-- only the interrupt forces tasks, and after it nothing is left in `remaining_tasks` -/
+  /-- a task that left `remaining_tasks` has all its dependencies completed -/
+  deps     : ∀ t, s.phase t ≠ .remaining → ∀ d ∈ g.deps t, s.phase d = .completed
+  /-- only the interrupt path forces tasks, and a forced task has left `remaining_tasks` -/
   forcedAb : ∀ t, s.forced t = true → s.aborted = true
-  abortedNoRem : s.aborted = true → ∀ t, s.phase t ≠ .remaining
+  forcedNotRem : ∀ t, s.forced t = true → s.phase t ≠ .remaining
   /-- a task inside a worker, or past it, has its decision recorded -/
   modeSome : ∀ t, (s.phase t = .running ∨ s.phase t = .done ∨ s.phase t = .completed) → ∃ m, s.mode t = some m
   /-- exactly-once bookkeeping -/
@@ -122,8 +148,8 @@ structure Inv (g : Graph Tid) (s : State Tid) : Prop where
   finishSome : ∀ t, (s.phase t = .done ∨ s.phase t = .completed) → ∃ j, s.finishAt t = some j ∧ j < s.clock
   resultSome : ∀ t, (s.phase t = .done ∨ s.phase t = .completed) →
                  ∃ r m, s.result t = some r ∧ s.mode t = some m ∧ resAllowed m r = true
-  /-- ordering: a (non-forced) task starts only after every dependency has finished -/
-  order    : ∀ t i, s.startAt t = some i → s.forced t = false →
+  /-- ordering: a task starts only after every dependency has finished -/
+  order    : ∀ t i, s.startAt t = some i →
                  ∀ d ∈ g.deps t, s.phase d = .completed ∧ ∃ j, s.finishAt d = some j ∧ j < i
   /-- a task that was run (not skipped) had every on-success dependency end in success -/
   runOk    : ∀ t, s.mode t = some .run → s.forced t = false ∧
@@ -144,7 +170,7 @@ theorem complDeps_sub_deps (g : Graph Tid) (t d : Tid) (h : d ∈ g.complDeps t)
 theorem inv_empty (g : Graph Tid) : Inv g empty := by
   constructor <;> simp [empty, Phase.rank]
 
-theorem inv_dispatch (g : Graph Tid) (n : Nat) (s : State Tid) (hab : s.aborted = false) (h : Inv g s) :
+theorem inv_dispatch (g : Graph Tid) (n : Nat) (s : State Tid) (h : Inv g s) :
     Inv g (dispatch g s n) := by
   have hne : ∀ t, (dispatch g s n).phase t ≠ .remaining → s.phase t ≠ .remaining ∨
       (s.phase t = .remaining ∧ (dispatch g s n).phase t = .queued ∧ ∀ d ∈ g.deps t, s.phase d = .completed) := by
@@ -161,13 +187,14 @@ theorem inv_dispatch (g : Graph Tid) (n : Nat) (s : State Tid) (hab : s.aborted 
     · left; rw [h', ht]
     · right; exact h2
   constructor
-  · intro t ht hf d hd
-    simp only [dispatch_forced] at hf
+  · intro t ht d hd
     rcases hne t ht with h1 | ⟨_, _, h3⟩
-    · exact dispatch_completed g s n d (h.deps t h1 hf d hd)
+    · exact dispatch_completed g s n d (h.deps t h1 d hd)
     · exact dispatch_completed g s n d (h3 d hd)
   · intro t ht; simp only [dispatch_forced, dispatch_aborted] at *; exact h.forcedAb t ht
-  · intro ha; simp only [dispatch_aborted] at ha; rw [hab] at ha; cases ha
+  · intro t ht
+    simp only [dispatch_forced] at ht
+    rw [hsame t (h.forcedNotRem t ht)]; exact h.forcedNotRem t ht
   · intro t ht
     simp only [dispatch_mode]
     by_cases hr : s.phase t = .remaining
@@ -198,9 +225,9 @@ theorem inv_dispatch (g : Graph Tid) (n : Nat) (s : State Tid) (hab : s.aborted 
     by_cases hr : s.phase t = .remaining
     · rcases hq t hr with h1 | h1 <;> rw [h1] at ht <;> simp at ht
     · rw [hsame t hr] at ht; exact h.resultSome t ht
-  · intro t i hi hf d hd
-    simp only [dispatch_startAt, dispatch_forced, dispatch_finishAt] at *
-    obtain ⟨h1, h2⟩ := h.order t i hi hf d hd
+  · intro t i hi d hd
+    simp only [dispatch_startAt, dispatch_finishAt] at *
+    obtain ⟨h1, h2⟩ := h.order t i hi d hd
     exact ⟨dispatch_completed g s n d h1, h2⟩
   · intro t ht
     simp only [dispatch_mode, dispatch_forced, dispatch_result] at *
@@ -217,7 +244,46 @@ theorem inv_dispatch (g : Graph Tid) (n : Nat) (s : State Tid) (hab : s.aborted 
   · intro t j hj; simp only [dispatch_finishAt, dispatch_startAt] at *; exact h.finishAfterStart t j hj
 
 theorem inv_init (g : Graph Tid) (n : Nat) : Inv g (init g n) :=
-  inv_dispatch g n empty rfl (inv_empty g)
+  inv_dispatch g n empty (inv_empty g)
+
+/-- marking queued tasks as `forced` in an aborted state keeps the invariant -/
+theorem inv_force (g : Graph Tid) (s : State Tid) (F : Tid → Bool) (h : Inv g s) (hab : s.aborted = true)
+    (hF : ∀ t, F t = s.forced t ∨ (F t = true ∧ s.phase t = .queued)) : Inv g { s with forced := F } := by
+  constructor <;> dsimp only
+  · exact h.deps
+  · intro _ _; exact hab
+  · intro t ht
+    rcases hF t with e | ⟨_, hq⟩
+    · exact h.forcedNotRem t (e ▸ ht)
+    · rw [hq]; simp
+  · exact h.modeSome
+  · exact h.starts
+  · exact h.startAtSome
+  · exact h.startLt
+  · exact h.finishSome
+  · exact h.resultSome
+  · exact h.order
+  · intro t ht
+    obtain ⟨h1, h2⟩ := h.runOk t ht
+    refine ⟨?_, h2⟩
+    rcases hF t with e | ⟨_, hq⟩
+    · rw [e]; exact h1
+    · have := h.modeNone t (Or.inr hq); rw [this] at ht; cases ht
+  · intro t m hf hm
+    rcases hF t with e | ⟨_, hq⟩
+    · exact h.forcedSkip t m (e ▸ hf) hm
+    · have := h.modeNone t (Or.inr hq); rw [this] at hm; cases hm
+  · exact h.modeNone
+  · exact h.finishAfterStart
+
+/-- one round of `skip_all_tasks` keeps the invariant: the tasks it queues have all their dependencies completed -/
+theorem inv_release (g : Graph Tid) (s : State Tid) (h : Inv g s) (hab : s.aborted = true) : Inv g (release g s) := by
+  rw [release_eq]
+  apply inv_force g _ _ (inv_dispatch g g.tasks.length s h) (by simpa using hab)
+  intro t
+  by_cases hp : t ∈ popped g s g.tasks.length
+  · right; exact ⟨by simp [hp], by simp [dispatch, hp]⟩
+  · left; simp [hp]
 
 theorem depFailed_false {g : Graph Tid} {s : State Tid} {t : Tid} (h : depFailed g s t = false) :
     ∀ d ∈ g.succDeps t, s.result d = some .success := by
@@ -249,18 +315,18 @@ theorem inv_step (g : Graph Tid) (n : Nat) (s s' : State Tid) (l : Label Tid) (h
     have hph : ∀ x, x ≠ t → (if x = t then Phase.running else s.phase x) = s.phase x := by
       intro x hx; simp [hx]
     constructor <;> dsimp only
-    · intro x hx hf d hd
+    · intro x hx d hd
       have hdc : s.phase d = .completed := by
         by_cases e : x = t
-        · subst e; exact h.deps x (by rw [hq]; simp) hf d hd
-        · rw [hph x e] at hx; exact h.deps x hx hf d hd
+        · subst e; exact h.deps x (by rw [hq]; simp) d hd
+        · rw [hph x e] at hx; exact h.deps x hx d hd
       have : d ≠ t := by intro e; subst e; rw [hq] at hdc; cases hdc
       rw [hph d this]; exact hdc
     · exact h.forcedAb
-    · intro ha x
+    · intro x hx
       by_cases e : x = t
       · simp [e]
-      · rw [hph x e]; exact h.abortedNoRem ha x
+      · rw [hph x e]; exact h.forcedNotRem x hx
     · intro x hx
       by_cases e : x = t
       · simp [e]
@@ -292,16 +358,16 @@ theorem inv_step (g : Graph Tid) (n : Nat) (s s' : State Tid) (l : Label Tid) (h
       · simp [e] at hx
       · simp only [e, if_false] at hx ⊢
         exact h.resultSome x hx
-    · intro x i hi hf d hd
+    · intro x i hi d hd
       by_cases e : x = t
       · subst e
         simp only [if_true] at hi; injection hi with hi; subst hi
-        have hdc := h.deps x (by rw [hq]; simp) hf d hd
+        have hdc := h.deps x (by rw [hq]; simp) d hd
         have hdne : d ≠ x := by intro e; subst e; rw [hq] at hdc; cases hdc
         obtain ⟨j, hj, hlt⟩ := h.finishSome d (Or.inr hdc)
         exact ⟨by rw [hph d hdne]; exact hdc, j, hj, hlt⟩
       · simp only [e, if_false] at hi
-        obtain ⟨h1, h2⟩ := h.order x i hi hf d hd
+        obtain ⟨h1, h2⟩ := h.order x i hi d hd
         have hdne : d ≠ t := by intro e; subst e; rw [hq] at h1; cases h1
         exact ⟨by rw [hph d hdne]; exact h1, h2⟩
     · intro x hx
@@ -310,7 +376,7 @@ theorem inv_step (g : Graph Tid) (n : Nat) (s s' : State Tid) (l : Label Tid) (h
         simp only [if_true] at hx; injection hx with hx
         obtain ⟨hf, hdf, _⟩ := decideMode_run hx
         refine ⟨hf, fun d hd => ?_⟩
-        have hdc := h.deps x (by rw [hq]; simp) hf d (succDeps_sub_deps g x d hd)
+        have hdc := h.deps x (by rw [hq]; simp) d (succDeps_sub_deps g x d hd)
         have hdne : d ≠ x := by intro e; subst e; rw [hq] at hdc; cases hdc
         exact ⟨by rw [hph d hdne]; exact hdc, depFailed_false hdf d hd⟩
       · simp only [e, if_false] at hx
@@ -344,18 +410,18 @@ theorem inv_step (g : Graph Tid) (n : Nat) (s s' : State Tid) (l : Label Tid) (h
     have hph : ∀ x, x ≠ t → (if x = t then Phase.done else s.phase x) = s.phase x := by
       intro x hx; simp [hx]
     constructor <;> dsimp only
-    · intro x hx hf d hd
+    · intro x hx d hd
       have hdc : s.phase d = .completed := by
         by_cases e : x = t
-        · subst e; exact h.deps x (by rw [hq]; simp) hf d hd
-        · rw [hph x e] at hx; exact h.deps x hx hf d hd
+        · subst e; exact h.deps x (by rw [hq]; simp) d hd
+        · rw [hph x e] at hx; exact h.deps x hx d hd
       have : d ≠ t := by intro e; subst e; rw [hq] at hdc; cases hdc
       rw [hph d this]; exact hdc
     · exact h.forcedAb
-    · intro ha x
+    · intro x hx
       by_cases e : x = t
       · simp [e]
-      · rw [hph x e]; exact h.abortedNoRem ha x
+      · rw [hph x e]; exact h.forcedNotRem x hx
     · intro x hx
       by_cases e : x = t
       · subst e; exact ⟨m, hm⟩
@@ -386,8 +452,8 @@ theorem inv_step (g : Graph Tid) (n : Nat) (s s' : State Tid) (l : Label Tid) (h
       · subst e; exact ⟨r, m, by simp, hm, hra⟩
       · simp only [e, if_false] at hx ⊢
         exact h.resultSome x hx
-    · intro x i hi hf d hd
-      obtain ⟨h1, j, hj, hlt⟩ := h.order x i hi hf d hd
+    · intro x i hi d hd
+      obtain ⟨h1, j, hj, hlt⟩ := h.order x i hi d hd
       have hdne : d ≠ t := by intro e; subst e; rw [hq] at h1; cases h1
       exact ⟨by rw [hph d hdne]; exact h1, j, by simp only [hdne, if_false]; exact hj, hlt⟩
     · intro x hx
@@ -413,24 +479,24 @@ theorem inv_step (g : Graph Tid) (n : Nat) (s s' : State Tid) (l : Label Tid) (h
       · simp only [e, if_false] at hj; exact h.finishAfterStart x j hj
   | receive t =>
     obtain ⟨htm, hq, rfl⟩ := step_receive hs
-    -- the state before the (possible) dispatch
+    -- the state before the dispatch / release
     have hph : ∀ x, x ≠ t → (if x = t then Phase.completed else s.phase x) = s.phase x := by
       intro x hx; simp [hx]
     have h1 : Inv g { s with phase := fun x => if x = t then .completed else s.phase x, clock := s.clock + 1 } := by
       constructor <;> dsimp only
-      · intro x hx hf d hd
+      · intro x hx d hd
         have hdc : s.phase d = .completed := by
           by_cases e : x = t
-          · subst e; exact h.deps x (by rw [hq]; simp) hf d hd
-          · rw [hph x e] at hx; exact h.deps x hx hf d hd
+          · subst e; exact h.deps x (by rw [hq]; simp) d hd
+          · rw [hph x e] at hx; exact h.deps x hx d hd
         by_cases e : d = t
         · simp [e]
         · rw [hph d e]; exact hdc
       · exact h.forcedAb
-      · intro ha x
+      · intro x hx
         by_cases e : x = t
         · simp [e]
-        · rw [hph x e]; exact h.abortedNoRem ha x
+        · rw [hph x e]; exact h.forcedNotRem x hx
       · intro x hx
         by_cases e : x = t
         · subst e; exact h.modeSome x (Or.inr (Or.inl hq))
@@ -463,8 +529,8 @@ theorem inv_step (g : Graph Tid) (n : Nat) (s s' : State Tid) (l : Label Tid) (h
           · subst e; exact Or.inl hq
           · simp only [e, if_false] at hx; exact hx
         exact h.resultSome x this
-      · intro x i hi hf d hd
-        obtain ⟨h1, h2⟩ := h.order x i hi hf d hd
+      · intro x i hi d hd
+        obtain ⟨h1, h2⟩ := h.order x i hi d hd
         refine ⟨?_, h2⟩
         by_cases e : d = t
         · simp [e]
@@ -482,83 +548,28 @@ theorem inv_step (g : Graph Tid) (n : Nat) (s s' : State Tid) (l : Label Tid) (h
         · simp only [e, if_false] at hx; exact h.modeNone x hx
       · exact h.finishAfterStart
     split
-    · exact h1
     · rename_i hab
-      exact inv_dispatch g n _ (by simpa using hab) h1
+      exact inv_release g _ h1 (by simpa using hab)
+    · exact inv_dispatch g n _ h1
   | interrupt =>
     obtain ⟨hab, rfl⟩ := step_interrupt hs
+    apply inv_release g _ _ rfl
     constructor <;> dsimp only
-    · intro x hx hf d hd
-      by_cases hr : s.phase x = .remaining
-      · simp [hr] at hf
-      · simp only [hr, if_false] at hf
-        have := h.deps x hr hf d hd
-        have hdr : s.phase d ≠ .remaining := by rw [this]; simp
-        simp only [hdr, if_false]; exact this
+    · exact h.deps
     · intro _ _; rfl
-    · intro _ x
-      by_cases hr : s.phase x = .remaining
-      · simp [hr]
-      · simp only [hr, if_false]; exact hr
-    · intro x hx
-      by_cases hr : s.phase x = .remaining
-      · simp [hr] at hx
-      · simp only [hr, if_false] at hx; exact h.modeSome x hx
-    · intro x
-      by_cases hr : s.phase x = .remaining
-      · have := h.starts x
-        rw [hr] at this
-        simpa [hr, Phase.rank] using this
-      · simp only [hr, if_false]; exact h.starts x
-    · intro x
-      by_cases hr : s.phase x = .remaining
-      · have := h.startAtSome x
-        rw [hr] at this
-        simpa [hr, Phase.rank] using this
-      · simp only [hr, if_false]; exact h.startAtSome x
+    · exact h.forcedNotRem
+    · exact h.modeSome
+    · exact h.starts
+    · exact h.startAtSome
     · intro x i hi; have := h.startLt x i hi; omega
     · intro x hx
-      by_cases hr : s.phase x = .remaining
-      · simp [hr] at hx
-      · simp only [hr, if_false] at hx
-        obtain ⟨j, hj, hlt⟩ := h.finishSome x hx
-        exact ⟨j, hj, by omega⟩
-    · intro x hx
-      by_cases hr : s.phase x = .remaining
-      · simp [hr] at hx
-      · simp only [hr, if_false] at hx; exact h.resultSome x hx
-    · intro x i hi hf d hd
-      have hr : s.phase x ≠ .remaining := by
-        intro hr
-        have := h.startAtSome x
-        rw [hr, hi] at this
-        simp [Phase.rank] at this
-      simp only [hr, if_false] at hf
-      obtain ⟨h1, h2⟩ := h.order x i hi hf d hd
-      have hdr : s.phase d ≠ .remaining := by rw [h1]; simp
-      exact ⟨by simp only [hdr, if_false]; exact h1, h2⟩
-    · intro x hx
-      obtain ⟨h1, h2⟩ := h.runOk x hx
-      have hr : s.phase x ≠ .remaining := by
-        intro hr
-        have := h.modeNone x (Or.inl hr)
-        rw [this] at hx; cases hx
-      refine ⟨by simp only [hr, if_false]; exact h1, fun d hd => ?_⟩
-      have hdc := (h2 d hd).1
-      have hdr : s.phase d ≠ .remaining := by rw [hdc]; simp
-      exact ⟨by simp only [hdr, if_false]; exact hdc, (h2 d hd).2⟩
-    · intro x m hf hm
-      by_cases hr : s.phase x = .remaining
-      · have := h.modeNone x (Or.inl hr)
-        rw [this] at hm; cases hm
-      · simp only [hr, if_false] at hf; exact h.forcedSkip x m hf hm
-    · intro x hx
-      by_cases hr : s.phase x = .remaining
-      · exact h.modeNone x (Or.inl hr)
-      · simp only [hr, if_false] at hx
-        rcases hx with hx | hx
-        · exact hx.elim
-        · exact h.modeNone x (Or.inr hx)
+      obtain ⟨j, hj, hlt⟩ := h.finishSome x hx
+      exact ⟨j, hj, by omega⟩
+    · exact h.resultSome
+    · exact h.order
+    · exact h.runOk
+    · exact h.forcedSkip
+    · exact h.modeNone
     · exact h.finishAfterStart
 
 end LccModel.Sched
